@@ -102,6 +102,15 @@ def run(ctx):
             ctx.fail_input("ref0", dict(ref=0.0), "reference 0.0 as float / dict / list gives %s / %s / %s, MSIsotropy(ref=0.0) %s" % (outs[0], outs[1], outs[2], iso0), None)
     except Exception as e:
         ctx.fail_input("ref0", dict(ref=0.0), "reference 0.0 given as a float raised %s: %s" % (type(e).__name__, e), None)
+    cur = {}            # the structure and options of the current iteration, attached to every recorded failure so that it can be replayed
+
+    _fail = ctx.fail_input
+
+    def fail_with_data(kind, case, detail, classify_=None):
+        if kind in ("ms", "efg") and cur:
+            case = dict(cur, **case)          # fields of the specific failure win over those of the iteration
+        return _fail(kind, case, detail, classify_)
+    ctx.fail_input = fail_with_data
     cases, meta = [], []
     N = 120 if quick else 2500
     for t in range(N):
@@ -130,6 +139,8 @@ def run(ctx):
             if got[i] != want:
                 ctx.fail_input("isotope", dict(element=e, use_q=use_q, dict=dl, list=ll), "isotope %d used, precedence gives %d" % (got[i], want), None)
         opts = dict(isotopes=iso_dict, isotope_list=iso_list, use_q_isotopes=use_q)
+        cur.clear()
+        cur.update(ms_array=atoms.get_array("ms").tolist(), efg_array=atoms.get_array("efg").tolist(), iso_dict=dict(iso_dict), iso_list=iso_list, use_q=use_q)
         # data lookups: skip structures whose chosen isotope has no data (recorded separately as F-10b)
         if any(str(g) not in data[e] for g, e in zip(got, elems)):
             continue
@@ -146,6 +157,7 @@ def run(ctx):
             ref, grad = refd[elems[0]], gradd[elems[0]]
             refd = {e: ref for e in syms}
             gradd = {e: grad for e in syms}
+        cur.update(ref=ref if not isinstance(ref, dict) else dict(ref), grad=grad if not isinstance(grad, dict) else dict(grad))
         try:
             arr = dict(iso=MSIsotropy.get(atoms), shift=MSShift.get(atoms, ref=ref, grad=grad), aniso=MSAnisotropy.get(atoms), red=MSReducedAnisotropy.get(atoms),
                        asym=MSAsymmetry.get(atoms), span=MSSpan.get(atoms), skew=MSSkew.get(atoms))
@@ -230,9 +242,16 @@ def run(ctx):
                     if not close(sh[i], f_):
                         ctx.fail_input("ms", dict(elems=elems, atom=i, prop="shift", ref=pref, grad=pgrad),
                                        "partial dictionaries: shift %r, documented defaults (ref 0, grad -1 for unnamed elements) give %r" % (float(sh[i]), f_), None)
+                # the tensor-object route on the same (partial) dictionaries
+                tsh = [x.shift for x in MSTensor.get(atoms, ref=pref, grad=pgrad)]
+                for i, e in enumerate(elems):
+                    ctx.evaluations += 1
+                    if not close(tsh[i], sh[i]):
+                        ctx.fail_input("ms", dict(elems=elems, atom=i, prop="shift", ref=pref, grad=pgrad),
+                                       "partial dictionaries: tensor object shift %r != array route %r" % (float(tsh[i]), float(sh[i])), None)
                 ctx.seen(("ms-partial", len(keep)))
             except Exception as e:
-                ctx.fail_input("ms", dict(elems=elems, ref=pref, grad=pgrad), "MSShift with partial dictionaries raised %s: %s" % (type(e).__name__, e), None)
+                ctx.fail_input("ms", dict(elems=elems, ref=pref, grad=pgrad), "MSShift / MSTensor with partial dictionaries raised %s: %s" % (type(e).__name__, e), None)
         # ---- cache, property by property: fill the caches, replace the tensors, then THIS property with force_recalc=True must be computed from the new data
         if t % 4 == 1:
             fresh = mk_struct(rng, elems)
@@ -294,6 +313,47 @@ def run(ctx):
 
 
 def replay(obj):
-    print("replay: re-run ./check C10 (inputs are regenerated from the seed %s); recorded case: %s %s" % (obj.get("seed"), obj.get("kind"), str(obj.get("case"))[:300]))
+    c = obj.get("case") or {}
+    if obj.get("kind") in ("ms", "efg") and "ms_array" in c:
+        from ase import Atoms
+        from soprano.properties.nmr.efg import EFGAsymmetry, EFGQuadrupolarConstant, EFGQuadrupolarProduct, EFGTensor, EFGVzz
+        from soprano.properties.nmr.ms import MSAnisotropy, MSIsotropy, MSShift, MSSpan, MSTensor
+        elems = c["elems"]
+        a = Atoms(elems, positions=[[1.7 * i, 0, 0] for i in range(len(elems))], cell=[30, 30, 30], pbc=True)
+        a.set_array("ms", np.array(c["ms_array"]))
+        a.set_array("efg", np.array(c["efg_array"]))
+        opts = dict(isotopes={k: int(v) for k, v in (c.get("iso_dict") or {}).items()}, isotope_list=c.get("iso_list"), use_q_isotopes=bool(c.get("use_q")))
+        probs = []
+        try:
+            if obj["kind"] == "ms":
+                ref, grad = c.get("ref"), c.get("grad")
+                arr = dict(iso=MSIsotropy.get(a), shift=MSShift.get(a, ref=ref, grad=grad), aniso=MSAnisotropy.get(a), span=MSSpan.get(a))
+                tens = MSTensor.get(a, ref=ref, grad=grad)
+                obj_ = dict(iso=[x.isotropy for x in tens], shift=[x.shift for x in tens], aniso=[x.anisotropy for x in tens], span=[x.span for x in tens])
+                for k in arr:
+                    for i in range(len(elems)):
+                        if not close(arr[k][i], obj_[k][i]):
+                            probs.append("%s of atom %d: array route %r != tensor object %r" % (k, i, float(arr[k][i]), float(obj_[k][i])))
+                for i, e in enumerate(elems):          # the documented formula, with the documented defaults (ref 0, grad -1) for what is not named
+                    r_ = ref.get(e, 0.0) if isinstance(ref, dict) else (ref[i] if isinstance(ref, list) else ref)
+                    g_ = grad.get(e, -1.0) if isinstance(grad, dict) else (grad[i] if isinstance(grad, list) else grad)
+                    sig = float(np.trace(np.array(c["ms_array"][i])) / 3)
+                    f_ = r_ + g_ * sig / (1 + r_ * 1e-6)
+                    if not close(arr["shift"][i], f_):
+                        probs.append("shift of atom %d (%s) is %r, ref + grad*sigma/(1+ref*1e-6) = %r" % (i, e, float(arr["shift"][i]), f_))
+            else:
+                tens = EFGTensor.get(a, **opts)
+                arr = dict(Vzz=EFGVzz.get(a), Cq=EFGQuadrupolarConstant.get(a, **opts), Pq=EFGQuadrupolarProduct.get(a, **opts), asym=EFGAsymmetry.get(a))
+                obj_ = dict(Vzz=[t.Vzz for t in tens], Cq=[t.Cq for t in tens], Pq=[t.Pq for t in tens], asym=[t.asymmetry for t in tens])
+                for k in arr:
+                    for i in range(len(elems)):
+                        if not close(arr[k][i], obj_[k][i], 1e-8):
+                            probs.append("%s of atom %d: array route %r != tensor object %r" % (k, i, float(arr[k][i]), float(obj_[k][i])))
+        except Exception as e:
+            probs.append("raised %s: %s" % (type(e).__name__, e))
+        print("replay %s on %s -> %s" % (obj["kind"], elems, "array and object routes agree (see the recorded detail for formula comparisons): " + str(obj.get("detail"))[:200]
+                                         if not probs else "PROPERTY FAILS: " + probs[0]))
+        return 0 if not probs else 1
+    print("replay: nothing executable in this file (re-run ./check C10 with VERIF_SEED=%s); recorded case: %s %s" % (obj.get("seed"), obj.get("kind"), str(c)[:300]))
     print(obj.get("detail"))
     return 1
